@@ -59,6 +59,21 @@ func userProps(get func(p mq.ControlPacket) *mq.UserProperties) Setter {
 		Apply: func(p mq.ControlPacket, m *model.Packet, i int) {
 			// pass a slice with spare capacity and keep using it afterwards,
 			// as a caller may: the packet must have copied what it keeps
+			// With the full model in hand (a Build, not a step-by-step
+			// sequence) the pairs 1+2, 4+5, ... go in through ONE variadic
+			// call each: the arity of a call is the caller's choice.
+			if multiPairDone(m, i) {
+				return // went in together with its predecessor
+			}
+			if i%3 == 1 && i+1 < len(m.UserProps) {
+				kv := make([]string, 4, 8)
+				kv[0], kv[1] = m.UserProps[i].K, m.UserProps[i].V
+				kv[2], kv[3] = m.UserProps[i+1].K, m.UserProps[i+1].V
+				get(p).AddUserProp(kv...)
+				kv[0], kv[2] = "caller-reused-key", "caller-reused-key2"
+				markMultiPair(m, i+1)
+				return
+			}
 			kv := make([]string, 2, 6)
 			kv[0], kv[1] = m.UserProps[i].K, m.UserProps[i].V
 			get(p).AddUserProp(kv...)
@@ -70,6 +85,25 @@ func userProps(get func(p mq.ControlPacket) *mq.UserProperties) Setter {
 
 func sc(name string, zero func(m *model.Packet) bool, apply func(p mq.ControlPacket, m *model.Packet)) Setter {
 	return Setter{Name: name, IsZero: zero, Apply: func(p mq.ControlPacket, m *model.Packet, _ int) { apply(p, m) }}
+}
+
+// multiPair remembers, per model being built, which user property element
+// was already added together with its predecessor (single goroutine).
+var multiPair = map[*model.Packet]int{}
+
+func markMultiPair(m *model.Packet, elem int) {
+	if len(multiPair) > 64 {
+		multiPair = map[*model.Packet]int{}
+	}
+	multiPair[m] = elem
+}
+
+func multiPairDone(m *model.Packet, elem int) bool {
+	if e, ok := multiPair[m]; ok && e == elem {
+		delete(multiPair, m)
+		return true
+	}
+	return false
 }
 
 // callerFilter is the TopicFilter variable a caller reuses across AddFilters calls.
@@ -200,6 +234,20 @@ func Setters(typ uint8) []Setter {
 						callerFilter.SetOptions(mq.Opt(m.Filters[i].Opts))
 						list[0] = callerFilter
 					}
+					if !reuse && (i+len(m.Filters[i].Filter))%3 == 0 {
+						// add a placeholder and edit it in place through the
+						// accessor (a bridge prefixing a mount point): Filters()
+						// hands out the packet's own list, TopicFilter's setters
+						// have pointer receivers
+						list[0] = mq.NewTopicFilter("placeholder/+", 0)
+						c(p).AddFilters(list...)
+						if fs := c(p).Filters(); len(fs) > 0 {
+							fs[len(fs)-1].SetFilter(m.Filters[i].Filter)
+							fs[len(fs)-1].SetOptions(mq.Opt(m.Filters[i].Opts))
+						}
+						list[0] = mq.NewTopicFilter("caller/reused", 3)
+						return
+					}
 					c(p).AddFilters(list...)
 					if reuse {
 						callerFilter.SetFilter("caller/next")
@@ -304,6 +352,10 @@ type Step struct {
 	// Decoy: call the setter with the value of the decoy model instead; a
 	// later step sets the real value (last write wins).
 	Decoy bool `json:",omitempty"`
+	// Copy: before this call the packet value is copied (q := *p) and the
+	// construction goes on with the copy: the exported packet types are plain
+	// structs, "template plus per-client fields" is ordinary Go.
+	Copy bool `json:",omitempty"`
 }
 
 // Plan produces a call sequence for m: every list element in list order,
@@ -374,8 +426,14 @@ func Build(m *model.Packet, plan []Step) mq.ControlPacket {
 // marked Decoy (scalar setters only; each is followed by the real call).
 func BuildDecoy(m, decoy *model.Packet, plan []Step) mq.ControlPacket {
 	p := NewPacket(int(m.Type))
+	if StartFromZero {
+		p = NewZero(int(m.Type))
+	}
 	ss := Setters(m.Type)
 	for _, st := range plan {
+		if st.Copy {
+			p = CopyValue(p)
+		}
 		if st.Decoy {
 			if decoy != nil && decoy.Type == m.Type && !ss[st.Setter].IsList {
 				ss[st.Setter].Apply(p, decoy, 0)
@@ -384,6 +442,66 @@ func BuildDecoy(m, decoy *model.Packet, plan []Step) mq.ControlPacket {
 		}
 		ss[st.Setter].Apply(p, m, st.Elem)
 		Probe(p, st.Probe)
+	}
+	return p
+}
+
+// StartFromZero makes Build start from the zero value of the packet type
+// (var p mq.PubAck) instead of the constructor's value. Set and cleared by the
+// one check that uses it, on its own goroutine.
+var StartFromZero bool
+
+// CopyValue returns a pointer to a copy of the packet value p points to.
+func CopyValue(p mq.ControlPacket) mq.ControlPacket {
+	switch v := p.(type) {
+	case *mq.Connect:
+		c := *v
+		return &c
+	case *mq.ConnAck:
+		c := *v
+		return &c
+	case *mq.Publish:
+		c := *v
+		return &c
+	case *mq.PubAck:
+		c := *v
+		return &c
+	case *mq.PubRec:
+		c := *v
+		return &c
+	case *mq.PubRel:
+		c := *v
+		return &c
+	case *mq.PubComp:
+		c := *v
+		return &c
+	case *mq.Subscribe:
+		c := *v
+		return &c
+	case *mq.SubAck:
+		c := *v
+		return &c
+	case *mq.Unsubscribe:
+		c := *v
+		return &c
+	case *mq.UnsubAck:
+		c := *v
+		return &c
+	case *mq.PingReq:
+		c := *v
+		return &c
+	case *mq.PingResp:
+		c := *v
+		return &c
+	case *mq.Disconnect:
+		c := *v
+		return &c
+	case *mq.Auth:
+		c := *v
+		return &c
+	case *mq.Undefined:
+		c := *v
+		return &c
 	}
 	return p
 }
@@ -470,7 +588,36 @@ func BuildDefault(m *model.Packet) mq.ControlPacket {
 
 // bin copies a binary value for a setter call; an empty value is nil or, when
 // the model says so, an empty non-nil slice (both are legal arguments).
-func bin(m *model.Packet, b []byte) []byte {
+// LastBin is the slice most recently handed to a binary setter by bin().
+var LastBin []byte
+
+// SetBytesField / GetBytesField reach the binary fields of a packet by the
+// accessor's name (Password, AuthData, CorrelationData, Payload).
+func SetBytesField(p mq.ControlPacket, name string, v []byte) bool {
+	for _, f := range bytesFields(p) {
+		if f.name == name {
+			f.set(v)
+			return true
+		}
+	}
+	return false
+}
+
+func GetBytesField(p mq.ControlPacket, name string) ([]byte, bool) {
+	for _, f := range bytesFields(p) {
+		if f.name == name {
+			return f.get(), true
+		}
+	}
+	return nil, false
+}
+
+func bin(m *model.Packet, b []byte) (out []byte) {
+	defer func() { LastBin = out }()
+	return bin0(m, b)
+}
+
+func bin0(m *model.Packet, b []byte) []byte {
 	if len(b) == 0 {
 		if m.XEmptyNonNil {
 			return []byte{}
@@ -682,4 +829,62 @@ func AppendOne(p mq.ControlPacket, m *model.Packet, tag string, pick int) string
 	}
 	s.Apply(p, m, s.Len(m)-1)
 	return s.Name
+}
+
+// TweakOne changes one thing on p through a public setter or adder (which
+// one: pick among those the type has) and updates the accessor snapshot m
+// accordingly: what a bridge does to a packet it received before it sends it
+// on. It returns the setter's name ("" = nothing applicable).
+func TweakOne(p mq.ControlPacket, m *model.Packet, pick int) string {
+	if pick < 0 {
+		pick = -pick
+	}
+	var names []string
+	byName := map[string]Setter{}
+	for _, s := range Setters(m.Type) {
+		byName[s.Name] = s
+		switch {
+		case s.IsList:
+			names = append(names, "list:"+s.Name)
+		case s.Name == "SetPacketID" && m.PacketID != 0,
+			s.Name == "SetReasonString", s.Name == "SetPayload", s.Name == "SetClientID",
+			s.Name == "SetContentType", s.Name == "SetResponseTopic":
+			names = append(names, s.Name)
+		}
+	}
+	if len(names) == 0 {
+		return ""
+	}
+	n := names[pick%len(names)]
+	if len(n) > 5 && n[:5] == "list:" {
+		return AppendOne(p, m, "fwd", pick/len(names))
+	}
+	switch n {
+	case "SetPacketID":
+		m.PacketID ^= 0x0101
+		if m.PacketID == 0 {
+			m.PacketID = 0x0101
+		}
+	case "SetReasonString":
+		m.ReasonString = grown(m.ReasonString, "+fwd")
+	case "SetPayload":
+		m.Payload = append(append([]byte(nil), m.Payload...), 'F')
+	case "SetClientID":
+		m.ClientID = grown(m.ClientID, "f")
+	case "SetContentType":
+		m.ContentType = grown(m.ContentType, "f")
+	case "SetResponseTopic":
+		m.ResponseTopic = grown(m.ResponseTopic, "f")
+	}
+	byName[n].Apply(p, m, 0)
+	return n
+}
+
+// grown appends suffix while the result stays inside MQTT's 65 535-byte
+// string limit, otherwise it returns a short other value.
+func grown(s, suffix string) string {
+	if len(s)+len(suffix) <= 65535 {
+		return s + suffix
+	}
+	return "fwd" + suffix
 }
